@@ -38,3 +38,7 @@ Definition w_clone_first_pattern : list node := [N (KFn [] false "f") [N KStmt [
 Theorem C17_clone_first_pattern_refuted : refutes 6 (mkcfg [] [("detect_clone_chain", false)] []) w_clone_first_pattern.
 Proof. refute. Qed.
 
+(* async fn f() { TcpStream::connect(v0); }   (a fix, e1a1fd7, was tried and undone by a07d81a) *)
+Definition w_net_bare_type : list node := [N (KFn [] true "f") [N KStmt [N (KCall 1 4 ["TcpStream"; "connect"]) [N (KId "v0") []]]]].
+Theorem C17_net_bare_type_refuted : refutes 7 (mkcfg [] [] []) w_net_bare_type.
+Proof. refute. Qed.
